@@ -409,3 +409,70 @@ func scopeLookup(sc *types.Scope, name string) types.Object {
 	}
 	return nil
 }
+
+// newCodeFuncs: names of functions (and their literals) that were not part of the reviewed
+// tree and are reachable only from such functions — API added after the review. The
+// pattern rules (E15.*, E16.*: deviations from idioms of the reviewed code) have no
+// reference for them and are not applied there; the safety rules (E2–E6, E14) are.
+var newCodeFuncs = map[string]bool{}
+
+func computeNewCode(p *Prog) {
+	newCodeFuncs = map[string]bool{}
+	reviewed := func(f *Func) bool {
+		r := rootFunc(f)
+		if r.Obj == nil {
+			return true
+		}
+		g, _ := sigKey(r.Obj)
+		_, ok := funcSnapshot[g+"|"+fname(r.Obj)]
+		return ok
+	}
+	callers := buildCallers(p)
+	state := map[*Func]int{} // 1 = in progress / new, 2 = not new
+	var isNew func(f *Func) bool
+	isNew = func(f *Func) bool {
+		r := rootFunc(f)
+		if st := state[r]; st != 0 {
+			return st == 1
+		}
+		if reviewed(r) {
+			state[r] = 2
+			return false
+		}
+		state[r] = 1 // assume new while looking at callers (cycles of new code stay new)
+		if r.Obj != nil {
+			for _, cs := range callers[r.Obj] {
+				if !isNew(cs.fn) {
+					state[r] = 2
+					return false
+				}
+			}
+			// a function value taken somewhere in reviewed code would be a hidden caller
+			for _, g := range p.Funcs {
+				if g.Body == nil || state[rootFunc(g)] == 1 {
+					continue
+				}
+				if reviewed(g) {
+					ginfo := g.Info()
+					hidden := false
+					ast.Inspect(g.Body, func(n ast.Node) bool {
+						if id, ok := n.(*ast.Ident); ok && ginfo.Uses[id] == types.Object(r.Obj) {
+							hidden = true
+						}
+						return !hidden
+					})
+					if hidden {
+						state[r] = 2
+						return false
+					}
+				}
+			}
+		}
+		return true
+	}
+	for _, f := range p.Funcs {
+		if isNew(f) {
+			newCodeFuncs[f.Name] = true
+		}
+	}
+}
